@@ -52,7 +52,7 @@ func (m *smap) find(i *interpreter, k value) int {
 		}
 		return -1
 	}
-	if ifc, ok := k.(iface); ok && ifc.t != nil && !types.Comparable(ifc.t) {
+	if ifc, ok := k.(iface); ok && ifc.t != nil && ifc.t != types.Type(rtypeType) && ifc.t != types.Type(errorType) && !types.Comparable(ifc.t) {
 		panic(runtimePanic(i, "runtime error: hash of unhashable type "+ifc.t.String()))
 	}
 	for p, mk := range m.keys {
